@@ -306,6 +306,16 @@ def run(ck):
             ok = bool(dcall) and (dcall[0]["args"][0].get("v") == TW) and bool(re.search(r"\b%s\b" % re.escape(det[0]["var"].split("@")[0]), e.get("t") or "")) and cfg.ev_dominates(dom, det[0], e)
         else:
             ok = bool(inline) and inline[0]["args"][0].get("v") == TW
+        if not ok:
+            # the entry is built as a local first (`WriteEntry tail(std::move(deferred), buffer.detach(totalWritten), fd, flags);`) and
+            # then pushed: the local's constructor arguments are judged
+            pv_ = (e.get("args") or [{}])[0]
+            lv_ = pv_.get("v") or (pv_.get("moved") or {}).get("v") or pv_.get("root")
+            ld_ = [d for d in f.events("decl") if d.get("var") == lv_ and "WriteEntry" in ((d.get("ctor") or "") + (d.get("type") or ""))]
+            if ld_:
+                ctxt = " ".join((a_.get("t") or "") for a_ in (ld_[0].get("cargs") or []))
+                viadet = any(re.search(r"\b%s\b" % re.escape(d_["var"].split("@")[0]), ctxt) for d_ in det) or ("detach(" in ctxt and re.search(r"detach\(\s*%s\s*\)" % re.escape(TW), ctxt))
+                ok = bool(viadet) and bool(dcall) and dcall[0]["args"][0].get("v") == TW and cfg.ev_dominates(dom, ld_[0], e)
         ck.ob("C06-R3", "asyncWriteImpl/requeue-carries-tail", ok, e.loc, f, "push_front(WriteEntry(move(deferred), %s = buffer.detach(totalWritten), flags))" % (det[0]["var"] if det else "buffer.detach(..)"))
     # progress accounting
     tw = twd
